@@ -552,3 +552,312 @@ Proof.
     apply in_flat_map. exists c. split; assumption.
   - intros z Hz. unfold names_involved. apply in_or_app. left. exact Hz.
 Qed.
+
+(* ------------------------------------------------------------------------------------ *)
+(* 8. Invariance under re-presentation: row order, table order, comparison labels         *)
+(* ------------------------------------------------------------------------------------ *)
+
+Lemma sumQ_perm {A : Type} (f : A -> Q) l l' : Permutation l l' -> sumQ f l == sumQ f l'.
+Proof.
+  induction 1 as [|x l l' _ IH|x y l|l l' l'' _ IH1 _ IH2].
+  - reflexivity.
+  - rewrite !sumQ_cons, IH. reflexivity.
+  - rewrite !sumQ_cons. ring.
+  - rewrite IH1. exact IH2.
+Qed.
+
+Lemma filter_perm {A : Type} (f : A -> bool) l l' : Permutation l l' -> Permutation (filter f l) (filter f l').
+Proof.
+  induction 1 as [|x l l' _ IH|x y l|l l' l'' _ IH1 _ IH2]; cbn [filter].
+  - constructor.
+  - destruct (f x); [constructor|]; exact IH.
+  - destruct (f x), (f y); try reflexivity. apply perm_swap.
+  - etransitivity; eassumption.
+Qed.
+
+Lemma sums_agree_perm (term : srow -> Q) sc sc' : Permutation sc sc' -> sums_agree term sc sc'.
+Proof. intros P q. apply sumQ_perm, filter_perm. exact P. Qed.
+
+Lemma observed_perm i v sc sc' : Permutation sc sc' -> observed i v sc = observed i v sc'.
+Proof.
+  intros P. apply bool_eq_iff. rewrite !observed_true.
+  split; intros (r & Hr & E); exists r; split; auto;
+    [eapply Permutation_in; [exact P|exact Hr]|eapply Permutation_in; [apply Permutation_sym; exact P|exact Hr]].
+Qed.
+
+(* the order of the scored rows is irrelevant to the M-step *)
+Theorem mstep_perm_invariant fl p sc sc' :
+  no_null_values p -> Permutation sc sc' -> mstep fl p sc = mstep fl p sc'.
+Proof.
+  intros Hnn P. rewrite !mstep_is_reference_em by exact Hnn.
+  apply ref_mstep_ext; try (apply sums_agree_perm; exact P).
+  intros i v. apply observed_perm. exact P.
+Qed.
+
+Theorem em_step_perm_invariant fl p data data' :
+  no_null_values p -> Permutation data data' -> em_step fl p data = em_step fl p data'.
+Proof.
+  intros Hnn P. unfold em_step. apply mstep_perm_invariant; [exact Hnn|].
+  unfold estep. apply Permutation_map. exact P.
+Qed.
+
+Lemma no_null_values_mstep fl p sc : no_null_values p -> no_null_values (mstep fl p sc).
+Proof.
+  intros Hnn c' l' Hc' Hl'. apply mstep_In in Hc' as (i & c & _ & Hc & ->).
+  unfold updF in Hl'. apply in_map_iff in Hl' as (l & <- & Hl). cbn [lv_val upd_level].
+  exact (Hnn c l Hc Hl).
+Qed.
+
+Lemma no_null_values_em_step fl p data : no_null_values p -> no_null_values (em_step fl p data).
+Proof. apply no_null_values_mstep. Qed.
+
+Theorem em_history_perm_invariant fl conv fuel : forall p data data',
+  no_null_values p -> Permutation data data' ->
+  em_history fl conv fuel p data = em_history fl conv fuel p data'.
+Proof.
+  induction fuel as [|k IH]; intros p data data' Hnn P; cbn [em_history]; [reflexivity|].
+  cbv zeta. rewrite <- (em_step_perm_invariant fl p data data' Hnn P).
+  destruct (Qlt_bool _ _); [reflexivity|]. f_equal.
+  apply IH; [apply no_null_values_em_step; exact Hnn|exact P].
+Qed.
+
+(* GROUP BY all gammas: the table of agreement patterns of permuted rows is a permutation *)
+Theorem count_patterns_perm rows rows' :
+  Permutation rows rows' -> Permutation (count_patterns rows) (count_patterns rows').
+Proof.
+  intros P. unfold count_patterns.
+  rewrite (map_ext (fun g => (g, Pos.of_nat (length (filter (gvec_eqb g) rows))))
+                   (fun g => (g, Pos.of_nat (length (filter (gvec_eqb g) rows'))))).
+  - apply Permutation_map. apply NoDup_Permutation; try apply NoDup_nodup.
+    intros g. rewrite !nodup_In. split; apply Permutation_in; [exact P|apply Permutation_sym; exact P].
+  - intros g. do 2 f_equal. apply Permutation_length, filter_perm. exact P.
+Qed.
+
+Theorem pattern_table_perm_invariant fl p pc pc' :
+  no_null_values p -> Permutation pc pc' ->
+  em_step fl p (pattern_data pc) = em_step fl p (pattern_data pc').
+Proof.
+  intros Hnn P. apply em_step_perm_invariant; [exact Hnn|].
+  unfold pattern_data. apply Permutation_map. exact P.
+Qed.
+
+(* --- relabelling the comparisons --- *)
+
+Definition reorder {A : Type} (d : A) (pi : list nat) (l : list A) : list A := map (fun i => nth i l d) pi.
+
+Definition relabel_params (pi : list nat) (p : params) : params :=
+  {| lam := lam p; cmps := reorder [] pi (cmps p) |}.
+Definition relabel_srow (pi : list nat) (r : srow) : srow := (reorder (-1)%Z pi (sg r), sw r, sp r).
+Definition relabel_drow (pi : list nat) (r : drow) : drow :=
+  (reorder (-1)%Z pi (dg r), dw r, reorder None pi (dtf r)).
+
+Lemma nth_reorder {A : Type} (d : A) pi l j : (j < length pi)%nat -> nth j (reorder d pi l) d = nth (nth j pi O) l d.
+Proof.
+  intros Hj. unfold reorder.
+  rewrite (nth_indep _ d (nth O l d)) by (rewrite map_length; exact Hj).
+  apply (map_nth (fun i => nth i l d)).
+Qed.
+
+Lemma gi_relabel pi j r : (j < length pi)%nat -> gi j (relabel_srow pi r) = gi (nth j pi O) r.
+Proof. intros Hj. unfold gi, relabel_srow. cbn [sg fst]. apply nth_reorder. exact Hj. Qed.
+
+Lemma sumQ_ext_eq {A : Type} (f g : A -> Q) l : (forall x, f x = g x) -> sumQ f l = sumQ g l.
+Proof. intros H. induction l as [|x t IH]; [reflexivity|]. rewrite !sumQ_cons_eq, H, IH. reflexivity. Qed.
+
+Lemma sumQ_relabel (term : srow -> Q) pi l :
+  (forall r, term (relabel_srow pi r) = term r) -> sumQ term (map (relabel_srow pi) l) = sumQ term l.
+Proof. intros H. rewrite sumQ_map. apply sumQ_ext_eq. exact H. Qed.
+
+Lemma rows_at_relabel pi j v sc : (j < length pi)%nat ->
+  rows_at j v (map (relabel_srow pi) sc) = map (relabel_srow pi) (rows_at (nth j pi O) v sc).
+Proof.
+  intros Hj. unfold rows_at. rewrite filter_map_comm. f_equal. apply filter_ext. intros r.
+  rewrite gi_relabel by exact Hj. reflexivity.
+Qed.
+
+Lemma keys_relabel pi j sc : (j < length pi)%nat ->
+  keys j (map (relabel_srow pi) sc) = keys (nth j pi O) sc.
+Proof.
+  intros Hj. unfold keys. rewrite map_map. f_equal. apply map_ext. intros r. apply gi_relabel. exact Hj.
+Qed.
+
+Lemma props_tbl_relabel pi j sc : (j < length pi)%nat ->
+  props_tbl j (map (relabel_srow pi) sc) = props_tbl (nth j pi O) sc.
+Proof.
+  intros Hj.
+  assert (E : counts_tbl j (map (relabel_srow pi) sc) = counts_tbl (nth j pi O) sc).
+  { unfold counts_tbl. rewrite keys_relabel by exact Hj. apply map_ext. intros v.
+    rewrite rows_at_relabel by exact Hj. rewrite !sumQ_relabel by reflexivity. reflexivity. }
+  unfold props_tbl. rewrite E. reflexivity.
+Qed.
+
+Lemma nth_mapi_from {A B : Type} (F : nat -> list A -> list B) (l : list (list A)) :
+  (forall i, F i [] = []) -> forall k i, nth i (mapi_from F k l) [] = F (k + i)%nat (nth i l []).
+Proof.
+  intros HF. induction l as [|x t IH]; intros k i; cbn [mapi_from].
+  - destruct i; cbn; rewrite HF; reflexivity.
+  - destruct i as [|i]; cbn [nth]; [rewrite Nat.add_0_r; reflexivity|].
+    rewrite IH. f_equal. lia.
+Qed.
+
+Lemma mapi_from_reorder {A B : Type} (G : nat -> A -> B) (H : nat -> B) (h : nat -> A) pi :
+  (forall j, (j < length pi)%nat -> G j (h (nth j pi O)) = H (nth j pi O)) ->
+  mapi_from G 0 (map h pi) = map H pi.
+Proof.
+  intros E.
+  assert (Gen : forall suf pre, pi = pre ++ suf -> mapi_from G (length pre) (map h suf) = map H suf).
+  { induction suf as [|x t IH]; intros pre Hpi; cbn [map mapi_from]; [reflexivity|]. f_equal.
+    - specialize (E (length pre)). rewrite Hpi, nth_middle in E. apply E. rewrite app_length. cbn. lia.
+    - specialize (IH (pre ++ [x])). rewrite app_length, Nat.add_1_r in IH. apply IH.
+      rewrite <- app_assoc. exact Hpi. }
+  apply (Gen pi []). reflexivity.
+Qed.
+
+(* relabelling the comparisons (and the gamma columns accordingly) relabels the M-step's output;
+   no hypothesis on pi: an index beyond the end reads as an empty comparison / null gamma *)
+Theorem mstep_relabel_invariant fl pi p sc :
+  cmps (mstep fl (relabel_params pi p) (map (relabel_srow pi) sc)) = reorder [] pi (cmps (mstep fl p sc)) /\
+  lam (mstep fl (relabel_params pi p) (map (relabel_srow pi) sc)) = lam (mstep fl p sc).
+Proof.
+  split.
+  - rewrite !mstep_cmps. unfold relabel_params, reorder. cbn [cmps].
+    apply mapi_from_reorder. intros j Hj.
+    rewrite (nth_mapi_from (updF fl sc) (cmps p)) by reflexivity. cbn [Nat.add].
+    unfold updF. rewrite props_tbl_relabel by exact Hj. reflexivity.
+  - cbn [mstep lam relabel_params]. destruct (fix_lam fl); [reflexivity|]. f_equal.
+    unfold lambda_new. rewrite !sumQ_relabel by reflexivity. reflexivity.
+Qed.
+
+(* the E-step under relabelling: the Bayes factors are multiplied in another order *)
+Definition prodq (f : nat -> Q) (l : list nat) : Q := fold_right (fun x a => f x * a) 1 l.
+
+Lemma prodq_perm f l l' : Permutation l l' -> prodq f l == prodq f l'.
+Proof.
+  induction 1 as [|x l l' _ IH|x y l|l l' l'' _ IH1 _ IH2]; cbn [prodq fold_right].
+  - reflexivity.
+  - fold (prodq f l). fold (prodq f l'). rewrite IH. reflexivity.
+  - ring.
+  - rewrite IH1. exact IH2.
+Qed.
+
+Lemma prodq_ext f g l : (forall x, In x l -> f x == g x) -> prodq f l == prodq g l.
+Proof.
+  induction l as [|x t IH]; intros H; cbn [prodq fold_right]; [reflexivity|].
+  fold (prodq f t). fold (prodq g t).
+  rewrite (H x (or_introl eq_refl)), IH by (intros y Hy; apply H; right; exact Hy). reflexivity.
+Qed.
+
+Lemma prodq_ext_eq f g l : (forall x, f x = g x) -> prodq f l = prodq g l.
+Proof. intros H. induction l as [|x t IH]; cbn; [reflexivity|]. unfold prodq in IH. rewrite H, IH. reflexivity. Qed.
+
+Lemma prodq_map f (h : nat -> nat) l : prodq f (map h l) = prodq (fun x => f (h x)) l.
+Proof. induction l as [|x t IH]; cbn; [reflexivity|]. unfold prodq in IH. rewrite IH. reflexivity. Qed.
+
+Definition bf_at (cs : list cmp) (g : list Z) (tf : list (option Q)) (k : nat) : Q :=
+  bf_cmp (nth k cs []) (nth k g (-1)%Z) (nth k tf None).
+
+Lemma nth_S_tl {A : Type} (d : A) k l : nth (S k) l d = nth k (tl l) d.
+Proof. destruct l; [destruct k; reflexivity|reflexivity]. Qed.
+
+Lemma bf_prod_seq cs : forall g tf, bf_prod cs g tf = prodq (bf_at cs g tf) (seq 0 (length cs)).
+Proof.
+  induction cs as [|c t IH]; intros g tf; [reflexivity|].
+  cbn [bf_prod length seq prodq fold_right]. fold (prodq (bf_at (c :: t) g tf) (seq 1 (length t))).
+  rewrite <- seq_shift, prodq_map, IH. f_equal.
+  - unfold bf_at. cbn [nth]. destruct g, tf; reflexivity.
+  - apply prodq_ext_eq. intros k. unfold bf_at. rewrite !nth_S_tl. reflexivity.
+Qed.
+
+Lemma map_nth_seq {A : Type} (d : A) l : map (fun j => nth j l d) (seq 0 (length l)) = l.
+Proof.
+  induction l as [|x t IH]; cbn [length seq map nth]; [reflexivity|]. f_equal.
+  rewrite <- seq_shift, map_map. exact IH.
+Qed.
+
+Lemma bf_prod_relabel pi cs g tf :
+  Permutation pi (seq 0 (length cs)) ->
+  bf_prod (reorder [] pi cs) (reorder (-1)%Z pi g) (reorder None pi tf) == bf_prod cs g tf.
+Proof.
+  intros P. rewrite !bf_prod_seq. unfold reorder at 4. rewrite map_length.
+  rewrite (prodq_ext _ (fun j => bf_at cs g tf (nth j pi O))).
+  - rewrite <- (prodq_map (bf_at cs g tf) (fun j => nth j pi O)), map_nth_seq. apply prodq_perm. exact P.
+  - intros j Hj. apply in_seq in Hj. unfold bf_at. rewrite !nth_reorder by lia. reflexivity.
+Qed.
+
+Lemma posterior_relabel pi p g tf :
+  Permutation pi (seq 0 (length (cmps p))) ->
+  posterior (relabel_params pi p) (reorder (-1)%Z pi g) (reorder None pi tf) == posterior p g tf.
+Proof.
+  intros P. unfold posterior. cbn [lam cmps relabel_params].
+  destruct (Qeq_bool (lam p) 1); [reflexivity|]. cbv zeta. rewrite (bf_prod_relabel pi _ g tf P). reflexivity.
+Qed.
+
+(* the M-step tolerates match probabilities that agree up to == *)
+Definition srow_eqv (r1 r2 : srow) : Prop := sg r1 = sg r2 /\ sw r1 = sw r2 /\ sp r1 == sp r2.
+
+Lemma sums_agree_eqv (term : srow -> Q) sc1 sc2 :
+  (forall r1 r2, srow_eqv r1 r2 -> term r1 == term r2) ->
+  Forall2 srow_eqv sc1 sc2 -> sums_agree term sc1 sc2.
+Proof.
+  intros Ht F q. induction F as [|r1 r2 l1 l2 Hr _ IH]; cbn [filter]; [reflexivity|].
+  pose proof Hr as (Hg & _ & _). rewrite Hg. destruct (q (sg r2)); [|exact IH].
+  rewrite !sumQ_cons, (Ht r1 r2 Hr), IH. reflexivity.
+Qed.
+
+Lemma observed_eqv i v sc1 sc2 : Forall2 srow_eqv sc1 sc2 -> observed i v sc1 = observed i v sc2.
+Proof.
+  unfold observed. induction 1 as [|r1 r2 l1 l2 (Hg & _ & _) _ IH]; cbn [existsb]; [reflexivity|].
+  unfold gi at 1 3. rewrite Hg, IH. reflexivity.
+Qed.
+
+Lemma mstep_eqv fl p sc1 sc2 :
+  no_null_values p -> Forall2 srow_eqv sc1 sc2 -> mstep fl p sc1 = mstep fl p sc2.
+Proof.
+  intros Hnn F. rewrite !mstep_is_reference_em by exact Hnn. apply ref_mstep_ext.
+  - apply sums_agree_eqv; [|exact F]. intros r1 r2 (_ & Hw & Hp). unfold mterm. rewrite Hw, Hp. reflexivity.
+  - apply sums_agree_eqv; [|exact F]. intros r1 r2 (_ & Hw & Hp). unfold uterm. rewrite Hw, Hp. reflexivity.
+  - apply sums_agree_eqv; [|exact F]. intros r1 r2 (_ & Hw & _). rewrite Hw. reflexivity.
+  - intros i v. apply observed_eqv. exact F.
+Qed.
+
+Lemma no_null_values_relabel pi p : no_null_values p -> no_null_values (relabel_params pi p).
+Proof.
+  intros Hnn c l Hc Hl. unfold relabel_params, reorder in Hc. cbn [cmps] in Hc.
+  apply in_map_iff in Hc as (i & <- & _). cbn beta in Hl.
+  destruct (@nth_in_or_default (list level) i (cmps p) []) as [Hin|E].
+  - exact (Hnn _ l Hin Hl).
+  - rewrite E in Hl. destruct Hl.
+Qed.
+
+Lemma estep_relabel pi p data :
+  Permutation pi (seq 0 (length (cmps p))) ->
+  Forall2 srow_eqv (estep (relabel_params pi p) (map (relabel_drow pi) data))
+                   (map (relabel_srow pi) (estep p data)).
+Proof.
+  intros P. unfold estep. induction data as [|r t IH]; cbn [map]; constructor; [|exact IH].
+  split; [reflexivity|]. split; [reflexivity|].
+  cbn [sp snd relabel_drow relabel_srow dg dtf fst]. apply posterior_relabel. exact P.
+Qed.
+
+(* relabelling the comparisons of the model and the gamma / term-frequency columns of the data
+   accordingly relabels the result of a whole EM step *)
+Theorem em_step_relabel_invariant fl pi p data :
+  no_null_values p -> Permutation pi (seq 0 (length (cmps p))) ->
+  cmps (em_step fl (relabel_params pi p) (map (relabel_drow pi) data))
+  = reorder [] pi (cmps (em_step fl p data)) /\
+  lam (em_step fl (relabel_params pi p) (map (relabel_drow pi) data)) = lam (em_step fl p data).
+Proof.
+  intros Hnn P. unfold em_step.
+  rewrite (mstep_eqv fl _ _ _ (no_null_values_relabel pi p Hnn) (estep_relabel pi p data P)).
+  apply mstep_relabel_invariant.
+Qed.
+
+(* hence along the whole history *)
+Lemma relabel_em_step_params fl pi p data :
+  no_null_values p -> Permutation pi (seq 0 (length (cmps p))) ->
+  em_step fl (relabel_params pi p) (map (relabel_drow pi) data) = relabel_params pi (em_step fl p data).
+Proof.
+  intros Hnn P. destruct (em_step_relabel_invariant fl pi p data Hnn P) as [E1 E2].
+  destruct (em_step fl (relabel_params pi p) (map (relabel_drow pi) data)) as [l c]. cbn in E1, E2.
+  unfold relabel_params. rewrite E1, E2. reflexivity.
+Qed.
